@@ -526,3 +526,53 @@ Definition capacity_okb (pt : ptab) (e : expr) (pls : list placement) : bool :=
   forallb (fun pq =>
     forallb (fun tau => usage pls (fst (fst pq)) tau + alloc_usage e (fst (fst pq)) tau <=? snd (fst pq))
             (pl_starts pls ++ leaf_starts e)) pt.
+
+(* every placement is the exact image of a Choose leaf of the tree: same name, start, end = start +
+   duration, total amount = requested amount, every allocation drawn from an available partition of
+   the Choose at the Choose's start time, positive and within the partition's quantity *)
+Definition pl_total (pl : placement) : Z := sumZ (map snd (pl_allocs pl)).
+Definition alloc_okb (pt : ptab) (ps : list Z) (s : Z) (x : Z * Z * Z) : bool :=
+  existsb (Z.eqb (fst (fst x))) ps && avail_of pt (fst (fst x)) && (snd (fst x) =? s)
+  && (0 <? snd x) && (snd x <=? qty0 pt (fst (fst x))).
+Definition placement_matchesb (pt : ptab) (now : Z) (pl : placement) (c : expr) : bool :=
+  match c with
+  | Choose n ps am s d u =>
+      (pl_name pl =? n) && (pl_start pl =? s) && (pl_end pl =? s + d) && (pl_total pl =? am)
+      && (now <=? s) && forallb (alloc_okb pt ps s) (pl_allocs pl)
+  | _ => false
+  end.
+Definition placements_exactb (pt : ptab) (now : Z) (e : expr) (pls : list placement) : bool :=
+  forallb (fun pl => existsb (placement_matchesb pt now pl) (subs e)) pls.
+
+(* Max: all placements named after children of one Max node carry the same name *)
+Definition memZ (x : Z) (l : list Z) : bool := existsb (Z.eqb x) l.
+Definition max_node_okb (pls : list placement) (e : expr) : bool :=
+  match e with
+  | Max n ks =>
+      let ids := map node_id ks in
+      let mine := filter (fun pl => memZ (pl_name pl) ids) pls in
+      forallb (fun p1 => forallb (fun p2 => pl_name p1 =? pl_name p2) mine) mine
+  | _ => true
+  end.
+Definition max_okb (e : expr) (pls : list placement) : bool := forallb (max_node_okb pls) (subs e).
+Fixpoint nodupZ (l : list Z) : bool :=
+  match l with [] => true | x :: l' => negb (memZ x l') && nodupZ l' end.
+Definition names_nodupb (pls : list placement) : bool := nodupZ (map pl_name pls).
+
+(* LessThan: every placement named after a Choose below the first child ends before every placement
+   named after a Choose below the second child starts *)
+Definition choose_id (e : expr) : list Z := match e with Choose n _ _ _ _ _ => [n] | _ => [] end.
+Definition choose_ids (e : expr) : list Z := flat_map choose_id (subs e).
+Definition lt_node_okb (pls : list placement) (e : expr) : bool :=
+  match e with
+  | LessThan n x y =>
+      let first := filter (fun pl => memZ (pl_name pl) (choose_ids x)) pls in
+      let second := filter (fun pl => memZ (pl_name pl) (choose_ids y)) pls in
+      forallb (fun p1 => forallb (fun p2 => pl_end p1 <=? pl_start p2) second) first
+  | _ => true
+  end.
+Definition lt_okb (e : expr) (pls : list placement) : bool := forallb (lt_node_okb pls) (subs e).
+
+(* all monitors that hold for every tree *)
+Definition structure_okb (pt : ptab) (now : Z) (e : expr) (pls : list placement) : bool :=
+  placements_exactb pt now e pls && max_okb e pls && names_nodupb pls.
